@@ -242,6 +242,12 @@ def c_identity(ex, st, callee, a):
     return [(None, v)]
 
 
+@contract(r'^<PhantomData<.*> as Clone>::clone$', r'^<&str as Clone>::clone$', r'^<&\[u8\] as Clone>::clone$', r'^<(?:std::option::)?Option<.*> as Clone>::clone$', r'^<(u8|u16|u32|u64|usize|bool) as Clone>::clone$')
+def c_clone_plain(ex, st, callee, a):
+    """Clone of Copy / std value types: the value behind the reference (Option<T> for the crate's Copy newtypes: a bitwise copy)"""
+    return [(None, deref(st, a[0]))]
+
+
 @contract(r'^(?:std::result::)?Result::<.*>::unwrap$', r'^(?:std::result::)?Result::<.*>::expect$', r'^(?:std::option::)?Option::<.*>::unwrap$', r'^(?:std::option::)?Option::<.*>::expect$')
 def c_unwrap(ex, st, callee, a):
     v = a[0]
@@ -760,10 +766,38 @@ def _engine(st, v):
     return name.split('::')[-1] in ('URL_SAFE_NO_PAD', 'BASE64_URL_SAFE_NO_PAD')
 
 
+b64_other = Function('b64_other_engine', S, Bytes, S)     # an engine configuration other than URL_SAFE_NO_PAD: nothing is known about its output
+
+
+def _b64_enc(st, eng, data):
+    if _engine(st, eng): return b64(as_bytes(st, data))
+    name = [e for e in st.log if e[0] == 'b64_engine'][-1][1]
+    return b64_other(StringVal(name), as_bytes(st, data))
+
+
 @contract(r'^<GeneralPurpose as base64::Engine>::encode::<')
-def c_b64_encode(ex, st, callee, a):
-    if not _engine(st, a[0]): raise Unsupported('base64 encode with an engine other than URL_SAFE_NO_PAD')
-    return [(None, b64(as_bytes(st, a[1])))]
+def c_b64_encode(ex, st, callee, a): return [(None, _b64_enc(st, a[0], a[1]))]
+
+
+@contract(r'^<GeneralPurpose as base64::Engine>::encode_string::<')
+def c_b64_encode_string(ex, st, callee, a):
+    cur = deref(st, a[2]); enc = _b64_enc(st, a[0], a[1])
+    upd(st, a[2], enc if (is_string_value(cur) and cur.as_string() == '') else Concat(cur, enc)); return [(None, UNIT)]
+
+
+@contract(r'^(?:std::string::)?String::with_capacity$')
+def c_string_with_capacity(ex, st, callee, a): return [(None, StringVal(''))]
+
+
+@contract(r'^core::num::<impl usize>::div_ceil$', r'^usize::div_ceil$')
+def c_div_ceil(ex, st, callee, a):
+    return [(a[1] == 0, Panic('attempt to divide by zero')), (a[1] != 0, (a[0] + a[1] - 1) / a[1])]
+
+
+@contract(r'^<T as AsRef<\[u8\]>>::as_ref$')
+def c_generic_as_ref_bytes(ex, st, callee, a):
+    # the type parameter of a trait's provided method, unresolved in the MIR of the default body: every implementor in reach is str / String / [u8] / Vec<u8>
+    return [(None, as_bytes(st, a[0]))]
 
 
 @contract(r'^<GeneralPurpose as base64::Engine>::decode::<')
